@@ -7,7 +7,7 @@ Open Scope Z_scope.
 Definition Inv (s : st) : Prop := g s = csum (rows s) /\ Forall row_wf (rows s).
 
 #[export] Hint Resolve good_tc_add good_conn_msg good_lib_msg good_ph_valid good_ph_skip good_dissim good_after good_after_tc
-  good_hs_bytes good_pex_enable good_hs_msg good_abort good_stop : c16.
+  good_hs_bytes good_pex_enable good_hs_msg good_abort good_stop good_snub good_unsnub : c16.
 
 Lemma vadd_swap : forall a b c d, (a +v b) +v (c +v d) = (a +v c) +v (b +v d).
 Proof. intros. rewrite !vadd_assoc. f_equal. rewrite <- !vadd_assoc. f_equal. apply vadd_comm. Qed.
@@ -55,6 +55,10 @@ Qed.
 
 Lemma set_blocks_inv : forall bl s, Inv s -> Inv (set_blocks bl s).
 Proof. intros bl s H. exact H. Qed.
+Lemma set_hq_inv : forall l s, Inv s -> Inv (set_hq l s).
+Proof. intros l s H. exact H. Qed.
+Lemma set_sockfull_inv : forall b s, Inv s -> Inv (set_sockfull b s).
+Proof. intros b s H. exact H. Qed.
 Lemma reject_inv : forall s, Inv s -> Inv (reject s).
 Proof. intros s H. exact H. Qed.
 Lemma dec_tc_all_inv : forall ow s, Inv s -> Inv (dec_tc_all ow s).
@@ -71,6 +75,8 @@ Ltac dm := repeat (cbv zeta; match goal with
 Ltac inv_step := match goal with
   | |- Inv (reject _) => apply reject_inv
   | |- Inv (set_blocks _ _) => apply set_blocks_inv
+  | |- Inv (set_hq _ _) => apply set_hq_inv
+  | |- Inv (set_sockfull _ _) => apply set_sockfull_inv
   | |- Inv (dec_tc_all _ _) => apply dec_tc_all_inv
   | |- Inv (with_row _ _ _) => apply with_row_inv; [ solve [ auto with c16 ] | ]
   | |- Inv _ => assumption
@@ -133,13 +139,22 @@ Proof. intros c i e. destruct i; reflexivity. Qed.
 Lemma wf_new_row : forall c i e, row_wf (new_row c i e).
 Proof. intros. unfold row_wf, res_free. cbn. repeat split. Qed.
 
+Lemma contrib_refused_row : forall c e, contrib (refused_row c e) = vz.
+Proof. reflexivity. Qed.
+Lemma wf_refused_row : forall c e, row_wf (refused_row c e).
+Proof. intros. unfold row_wf, res_free. cbn. repeat split. Qed.
+
 Lemma step_inv : forall s o, Inv s -> Inv (step s o).
 Proof.
   intros s o H. destruct o; cbn [step].
   - destruct (get_row c (rows s)); [apply reject_inv; auto|].
-    destruct H as [H1 H2]. split; cbn [g rows].
-    + rewrite csum_app1, contrib_new_row, H1, vadd_assoc. reflexivity.
-    + apply Forall_app. split; auto. constructor; auto. apply wf_new_row.
+    destruct H as [H1 H2]. destruct (sockfull s).
+    + destruct incoming; [|split; auto]. split; cbn [g rows].
+      * rewrite csum_app1, contrib_refused_row, H1. symmetry. apply vz_r, csum_len.
+      * apply Forall_app. split; auto. constructor; auto. apply wf_refused_row.
+    + split; cbn [g rows].
+      * rewrite csum_app1, contrib_new_row, H1, vadd_assoc. reflexivity.
+      * apply Forall_app. split; auto. constructor; auto. apply wf_new_row.
   - apply with_row_inv; auto with c16.
   - apply pmsg_step_inv; auto.
   - destruct m; unfold with_conn; try (apply with_row_inv; auto with c16; fail).
@@ -152,6 +167,10 @@ Proof.
   - apply do_close_inv; auto.
   - apply do_close_inv; auto.
   - destruct (opened s); exact H.
+  - exact H.
+  - exact H.
+  - unfold with_conn. apply with_row_inv; auto with c16.
+  - unfold with_conn. apply with_row_inv; auto with c16.
   - exact H.
   - exact H.
 Qed.
@@ -179,7 +198,7 @@ Definition qvec (v : vec) : Prop := exists h p f, v = [0; h; 0; 0; 0; 0; 0; 0; 0
 
 Lemma quiet_contrib : forall r, quiet r -> qvec (contrib r).
 Proof.
-  intros [c p i e h dl bf xi xp f pe ui uu ur di du dr dn px tu td uc dc rq cu ps pc phh t cl] Q.
+  intros [c p i e h dl bf xi xp f pe ui uu ur usn di du dr dn px tu td uc dc rq cu ps pc phh t cl] Q.
   unfold quiet in Q. cbn in Q. destruct Q as (Q0 & -> & -> & -> & -> & -> & -> & -> & ->).
   unfold contrib, uq, dq. cbn. destruct p; cbn in *; try discriminate; do 3 eexists; reflexivity.
 Qed.
@@ -223,7 +242,7 @@ Proof.
   apply IHow. apply with_row_rows_Forall; auto.
 Qed.
 Lemma quiet_tc : forall k r, quiet r -> quiet (fst (tc_add k r)).
-Proof. intros k [c p i e h dl bf xi xp f pe ui uu ur di du dr dn px tu td uc dc rq cu ps pc phh t cl] Q. exact Q. Qed.
+Proof. intros k [c p i e h dl bf xi xp f pe ui uu ur usn di du dr dn px tu td uc dc rq cu ps pc phh t cl] Q. exact Q. Qed.
 
 Lemma do_stop_quiet : forall s, Inv s -> active s = true -> Forall quiet (rows (do_stop s)).
 Proof.
@@ -268,7 +287,7 @@ Proof.
       destruct (upd _ _ _) as [[? ?] ?]. reflexivity. }
     rewrite K. exact O. }
   cbn [step]. rewrite O1. cbn [active g].
-  assert (I : Inv (mkSt (rows s1) (g s1) (blocks s1) true true (seeding s1) (rej s1) (pexact s1) (maxc s1) (maxpex s1))).
+  assert (I : Inv (mkSt (rows s1) (g s1) (blocks s1) true true (seeding s1) (rej s1) (pexact s1) (maxc s1) (hq s1) (sockfull s1) (maxpex s1))).
   { exact (ledger_inv sd (ops ++ [Stop])). }
   split; [reflexivity|]. split; [exact Q|]. split; [exact I|].
   intros more0. apply fold_inv. exact I.
@@ -276,7 +295,7 @@ Qed.
 
 (* ---- abort_releases_all at state level ---------------------------------------------------------------------- *)
 Definition released (r : row) : Prop :=
-  ph r = PNone /\ fd r = false /\ pe r = false /\ px r = false /\ pi_c r = false /\ pi_h r = false /\
+  ph r = PNone /\ fd r = false /\ pe r = false /\ px r = false /\ us r = false /\ pi_c r = false /\ pi_h r = false /\
   reqs r = [] /\ cur r = CNone /\ contrib r = vz.
 
 Lemma abort_row_released : forall r, row_wf r -> ph r <> PNone ->
@@ -350,7 +369,7 @@ Proof.
   destruct (abort_row_released r Wr NP) as (R1 & R2 & R3).
   set (P := fun x : row => released x /\ closes x = closes r + 1).
   assert (PT : forall k x, P x -> P (fst (tc_add k x))).
-  { intros k [c0 p i e h dl bf xi xp f pe ui uu ur di du dr dn px tu td uc dc rq cu ps pc phh t cl] Px. exact Px. }
+  { intros k [c0 p i e h dl bf xi xp f pe ui uu ur usn di du dr dn px tu td uc dc rq cu ps pc phh t cl] Px. exact Px. }
   assert (base : forall s0, rows s0 = rows s ->
             exists r', get_row c (rows (with_row c abort_row s0)) = Some r' /\ P r').
   { intros s0 E. unfold with_row. rewrite E.
@@ -397,4 +416,43 @@ Example ex_hyps : active (run false ex_ops) = true /\ opened (run false ex_ops) 
   nth 2 (g (run false ex_ops)) 0 = 1 /\ nth 8 (g (run false ex_ops)) 0 = 1 /\ nth 17 (g (run false ex_ops)) 0 = 1.
 Proof. vm_compute. repeat split. eexists. repeat split. Qed.
 Example ex_stop : g (run false (ex_ops ++ [Stop])) = vz /\ rej (run false (ex_ops ++ [Stop])) = false.
+Proof. vm_compute. split; reflexivity. Qed.
+
+(* ---- round 3: refused accept, hash queue at close, snubbed connections ---------------------------------------- *)
+Lemma find_app_none : forall (A : Type) (f : A -> bool) l x, find f l = None -> find f (l ++ [x]) = if f x then Some x else None.
+Proof. induction l; cbn; intros; auto. destruct (f a); [discriminate|auto]. Qed.
+
+(* an incoming connection accepted while the socket budget is exhausted: the descriptor is closed exactly once, at
+   once; no handshake, no table entry, no counter changes *)
+Theorem refused_accept_closes : forall sd ops c e,
+  let s := run sd ops in
+  sockfull s = true -> get_row c (rows s) = None ->
+  let s' := run sd (ops ++ [Connect c true e]) in
+  g s' = g s /\ blocks s' = blocks s /\
+  exists r, get_row c (rows s') = Some r /\ released r /\ closes r = 1 /\ fd r = false.
+Proof.
+  intros sd ops c e s F G s'. subst s'. rewrite run_app. fold s. cbn [step]. rewrite G, F. cbn [g blocks rows].
+  split; auto. split; auto. exists (refused_row c e).
+  split.
+  - unfold get_row in *. rewrite (find_app_none _ _ _ (refused_row c e) G). cbn. rewrite Nat.eqb_refl. reflexivity.
+  - unfold released. cbn. repeat split; reflexivity.
+Qed.
+
+(* DownloadWrapper::close hands back every chunk the hash queue holds, and the transfer list is emptied *)
+Theorem close_drains_hash_queue : forall sd ops,
+  let s' := run sd (ops ++ [Close]) in hq s' = [] /\ blocks s' = [] /\ active s' = false /\ opened s' = false.
+Proof. intros sd ops s'. subst s'. rewrite run_app. cbn [step]. unfold do_close. cbn. auto. Qed.
+
+Definition ex_snub_ops : list op :=
+  [ Connect 0 true false; HsBytes 0 68; PeerMsg 0 MBitfield 6 6; PeerMsg 0 MInt 5 5; LibMsg 0 LUnchoke;
+    Snub 0; LibMsg 0 LChoke ].
+Example ex_snub :
+  (exists r, get_row 0 (rows (run true ex_snub_ops)) = Some r /\ us r = true /\ ui r = true /\ uu r = false) /\
+  nth 6 (g (run true ex_snub_ops)) 0 = 0 /\
+  g (run true (ex_snub_ops ++ [Abort 0])) = vz /\ rej (run true (ex_snub_ops ++ [Abort 0])) = false /\
+  g (run true (ex_snub_ops ++ [Unsnub 0; Abort 0])) = vz.
+Proof. vm_compute. repeat split. eexists. repeat split. Qed.
+Example ex_hq :
+  hq (run false (ex_ops ++ [PeerMsg 0 (MPiece 448 None) 16397 16397; HashQueued 7])) = [7%N] /\
+  hq (run false (ex_ops ++ [PeerMsg 0 (MPiece 448 None) 16397 16397; HashQueued 7; Stop])) = [7%N].
 Proof. vm_compute. split; reflexivity. Qed.
